@@ -204,6 +204,12 @@ def compose(tbl, tier, seed):
                             for rep2 in range(1 if unscaled else 6):
                                 lines.append(_line("applym", str(typ), p, 1,
                                                    rev, v, (), ()))
+    # --- noisy over-determined 2x2 solves in two row orders, with and
+    #     without a measurement-error model (TLC list WeightedTallCases)
+    for wc in tbl["wtall"]:
+        for rep in range(1 if quick else 4):
+            lines.append(_line("wsolve", str(wc["type"]), 2, wc["weighted"],
+                               (wc["order"],), (), (wc["m1"], wc["m2"]), ()))
     # --- value classes x the structures where the pivot choice matters:
     #     small zero-diagonal patterns of full structural rank (TLC list),
     #     the named pivot-forcing families, dense and graded matrices
@@ -301,6 +307,11 @@ def _argclass(ev):
         return "%s:%s:m%s:d%d:zero%s" % (ev.get("type"), ev.get("vc"),
                                           ev.get("m"), len(set(rm)),
                                           ev.get("zero"))
+    if e == "WSolve":
+        return "%s:%s:w%s:order%s:m%s+%s" % (ev.get("type"), ev.get("vc"),
+                                             ev.get("weighted"),
+                                             ev.get("order"), ev.get("m1"),
+                                             ev.get("m2"))
     if e == "ApplyM":
         sc = ev.get("sc", [])
         return "%s:%s:p%s:%s:%s" % (ev.get("type"), ev.get("vc"),
@@ -364,7 +375,8 @@ def _nontrivial(lines):
         if ln.startswith('{"e":"Conv"') or ln.startswith('{"e":"ApplyAB"') \
                 or ln.startswith('{"e":"AddAB"') \
                 or ln.startswith('{"e":"Solve"') \
-                or ln.startswith('{"e":"ApplyM"'):
+                or ln.startswith('{"e":"ApplyM"') \
+                or ln.startswith('{"e":"WSolve"'):
             return True
     return False
 
@@ -392,6 +404,9 @@ def _tally(path, stats):
                 if ev.get("res") != 1:
                     stats[key + "_inaccurate"] = \
                         stats.get(key + "_inaccurate", 0) + 1
+            if k == "WSolve" and ev.get("ok1") != 1:
+                stats["wsolve_not_solved"] = \
+                    stats.get("wsolve_not_solved", 0) + 1
             if k == "Solve" and ev.get("ok") == 1 and ev.get("rec") == 0:
                 stats["solve_dup_undetected"] = \
                     stats.get("solve_dup_undetected", 0) + 1
